@@ -14,7 +14,7 @@ class View:
         if isinstance(v, VEnum) and v.adt == OPTION:
             if v.variant == "None":
                 return None
-            n = State.node_of_id(v.get("0"))
+            n = self.st.node_of_id(v.get("0"))
             if n is None:
                 return ("bad", repr(v))
             return n
@@ -51,7 +51,7 @@ class View:
         if v.variant == "None":
             return True
         idv = v.get("0")
-        tgt = State.node_of_id(idv)
+        tgt = self.st.node_of_id(idv)
         if tgt is None:
             return False
         return self.I.cmp(self.st, idv.get("stamp").get("0").t, self.stamp_term(tgt), "Eq")
